@@ -8,6 +8,8 @@ real engine inside package commonspace/pubsub (overlay test files, harness-owned
 gates), the declarative matching rule is tabulated by TLC and compared with the real trie for all
 pattern sets / topics of a small alphabet, and random operation sequences recorded from the real
 engine are validated against PubSubTrace.tla."""
+import concurrent.futures
+import copy
 import json
 import os
 import random
@@ -76,7 +78,9 @@ def trace_consts(trace_path):
          "Tr_NotResp": _tset(_tla(x) for x in cfg["notResp"]), "Tr_InitMember": _tset(_tla(x) for x in cfg["initMember"]),
          "Tr_MaxPerSpace": str(cfg["maxPerSpace"]), "Tr_MaxPerStream": str(cfg["maxPerStream"]),
          "Tr_Burst": _tla(cfg["burst"]), "Tr_RingSize": str(cfg["ringSize"]), "Tr_Self": _tla(cfg["self"]),
-         "Tr_SubFrames": _tset(frames), "Tr_LocalPats": _tset(lpats), "Tr_OwnIds": _tset(own)}
+         "Tr_SubFrames": _tset(frames), "Tr_LocalPats": _tset(lpats), "Tr_OwnIds": _tset(own),
+         # the engine under test asks the membership checker a second time (repaired handleSubscribe) iff the recorder saw it do so
+         "Tr_FixRecheck": "TRUE" if any(x.get("ev") == "step" and x["a"]["act"] == "Sub3" for x in lines) else "FALSE"}
     body = "\n".join("%s == %s" % kv for kv in d.items())
     return ("-------------------------- MODULE PubSubTraceConsts --------------------------\n" + body +
             "\n=============================================================================\n"), len(lines)
@@ -136,6 +140,32 @@ def _cfg_with(ctx, cfg, subst):
     return txt
 
 
+def _sub(ctx, name):
+    """shallow copy of the context with its own scratch directory (lib/vf.py numbers work directories and report
+    files per context), so that independent TLC / go test jobs can run in parallel threads; results land in the
+    shared coverage / violation lists"""
+    c = copy.copy(ctx)
+    c.scratch = os.path.join(ctx.scratch, "job-" + re.sub(r"[^A-Za-z0-9_.-]+", "_", name))
+    os.makedirs(c.scratch, exist_ok=True)
+    return c
+
+
+def _parallel(jobs, threads):
+    """jobs: list of (name, callable); returns {name: result}; the first exception is re-raised after all finished"""
+    out, err = {}, []
+    with concurrent.futures.ThreadPoolExecutor(max_workers=threads) as ex:
+        futs = [(n, ex.submit(f)) for n, f in jobs]
+        for n, f in futs:
+            try:
+                out[n] = f.result()
+            except Exception as e:  # noqa
+                err.append(e)
+    if err:
+        broken = [e for e in err if e.__class__.__name__ == "CheckBroken"]
+        raise (broken or err)[0]
+    return out
+
+
 def run(ctx):
     thorough = ctx.tier == "thorough"
     if ctx.replay:
@@ -150,66 +180,92 @@ def run(ctx):
         else:
             _inpkg(ctx, "TestVerifReplay$")
         return
+    cores = ctx.cores
+    counted = []      # results of the exhaustive runs that count as model-checked states
+    dirs = {}
+    table = {}
 
-    # ------------------------------------------------------------------ 1. the design, exhaustively
-    # quick: the small configurations (np with fewer topics), no per-action coverage; thorough: all, with coverage
-    # (an action that is never taken makes the run fail as vacuous)
+    # ------------------------------------------------------------------ phase A: TLC (jobs in parallel)
+    def mc(cfg, workers, coverage=False, files=None, name=None, timeout=3000):
+        def f():
+            c = _sub(ctx, name or cfg)
+            res = c.tlc_expect_ok("pubsub", "PubSubMC", cfg, workers=workers, coverage=coverage, timeout=timeout, count=False, files=files,
+                                  name=name or ("pubsub/PubSubMC:" + cfg))
+            counted.append(res)
+            return res
+        return (name or cfg, f)
+
+    def refuted(cfg, kind, prop, what):
+        # a deviating design that TLC must refute (the counterexample is reproduced on the engine by the replay)
+        def f():
+            c = _sub(ctx, cfg)
+            res = c.tlc("pubsub", "PubSubMC", cfg, workers=1, timeout=1200, count=False, name="%s (expected counterexample)" % what)
+            if res.timed_out or res.error != kind or res.error_name != prop:
+                raise _broken("%s: expected %s to fail, got %s %s\n%s" % (what, prop, res.error, res.error_name, res.out[-2000:]))
+            ctx.notes.append("%s: refuted by TLC (%s, %d states in the counterexample)" % (what, prop, len(res.trace)))
+            return res
+        return (cfg, f)
+
+    def gen(cfg, name, simulate=None, depth=None, subst=None, sample=None):
+        def f():
+            c = _sub(ctx, "gen-" + name)
+            files = {cfg: _cfg_with(ctx, cfg, subst)} if subst else None
+            d = _emit(c, "PubSubGen", cfg, name, simulate=simulate, depth=depth, files=files)
+            dirs[name] = _sample_dir(c, d, sample, name + "-sample") if sample else d
+        return ("gen-" + name, f)
+
+    def match_table():
+        table["path"] = _match_table(_sub(ctx, "match-table"))
+
+    jobs = []
     if thorough:
-        for cfg in ["PubSub_mc_nq.cfg", "PubSub_mc_nqa.cfg", "PubSub_mc_n2.cfg", "PubSub_mc_np.cfg", "PubSub_mc_c1.cfg", "PubSub_mc_ct.cfg"]:
-            ctx.tlc_expect_ok("pubsub", "PubSubMC", cfg, coverage=True, timeout=3000)
-        for cfg in ["PubSub_mc_nt2.cfg", "PubSub_mc_nt.cfg"]:      # the large ones: same actions, no coverage pass
-            ctx.tlc_expect_ok("pubsub", "PubSubMC", cfg, timeout=5400)
+        w = max(2, cores // 4)
+        jobs += [mc("PubSub_mc_nt.cfg", w, timeout=5400), mc("PubSub_mc_nt2.cfg", w, timeout=5400),
+                 mc("PubSub_mc_nq.cfg", 2, coverage=True), mc("PubSub_mc_np.cfg", 2, coverage=True),
+                 mc("PubSub_mc_nqa.cfg", 1, coverage=True), mc("PubSub_mc_n2.cfg", 1, coverage=True),
+                 mc("PubSub_mc_c1.cfg", 1, coverage=True), mc("PubSub_mc_ct.cfg", 1, coverage=True),
+                 refuted("PubSub_mc_nodedup.cfg", "action_property", "PropAtMostOneCopy", "design without Broadcast dedup")]
     else:
-        ctx.tlc_expect_ok("pubsub", "PubSubMC", "PubSub_mc_nqa.cfg", timeout=1200)   # nq with the bound AtomicCheck (thorough: also without)
-        ctx.tlc_expect_ok("pubsub", "PubSubMC", "PubSub_mc_n2.cfg", coverage=True, timeout=1200)
-        ctx.tlc_expect_ok("pubsub", "PubSubMC", "PubSub_mc_npq.cfg", timeout=1200, name="pubsub/PubSubMC:PubSub_mc_np.cfg (4 topics)",
-                          files={"PubSub_mc_npq.cfg": _cfg_with(ctx, "PubSub_mc_np.cfg", {"Topics <- Np_Topics": "Topics <- Npq_Topics"})})
-        ctx.tlc_expect_ok("pubsub", "PubSubMC", "PubSub_mc_c1.cfg", coverage=True, timeout=1200)
-    # the statement in its strict form ("replayed messages never reach a handler") does not hold of the
-    # design: the dedup ring is finite. TLC must exhibit the residual; the harness reproduces it below.
-    strict = ctx.tlc("pubsub", "PubSubMC", "PubSub_mc_strict.cfg", timeout=900, count=False, name="strict-replay-property (expected counterexample)")
-    if strict.timed_out or strict.error != "action_property" or strict.error_name != "PropReplayStrict":
-        raise _broken("the model no longer exhibits the dedup-ring residual (expected PropReplayStrict to fail): %s %s\n%s" % (
-            strict.error, strict.error_name, strict.out[-2000:]))
-    ctx.notes.append("strict replay property: TLC counterexample of length %d (replay after ring eviction), reproduced on the engine by the replay" % len(strict.trace))
-    # the membership check of a subscribe precedes remoteMu: TLC must exhibit the eviction race (reproduced below)
-    ev = ctx.tlc("pubsub", "PubSubMC", "PubSub_mc_evrace.cfg", timeout=900, count=False, name="evicted-stay-out (expected counterexample)")
-    if ev.timed_out or ev.error != "invariant" or ev.error_name != "EvictedStayOut":
-        raise _broken("the model no longer exhibits the subscribe/eviction race (expected EvictedStayOut to fail): %s %s" % (ev.error, ev.error_name))
-    # the mutated design must be refuted too (the step properties are not vacuous)
-    mut = thorough and ctx.tlc("pubsub", "PubSubMC", "PubSub_mc_nodedup.cfg", timeout=900, count=False, name="design mutant: Broadcast without dedup (expected counterexample)")
-    if mut and (mut.timed_out or mut.error != "action_property" or mut.error_name != "PropAtMostOneCopy"):
-        raise _broken("AtMostOneCopy is not refuted on the design without Broadcast dedup: %s %s" % (mut.error, mut.error_name))
-
-    # ------------------------------------------------------------------ 2. matching rule: TLA+ table vs the real trie / validators
-    table = _match_table(ctx)
-    _inpkg(ctx, "TestVerifMatch$", env={"VERIF_MATCH_TABLE": table})
-    ctx.go_test("./pubsub", run="TestValidate$", env={"VERIF_MATCH_TABLE": table})
-
-    # ------------------------------------------------------------------ 3. spec -> code: behaviours replayed on the real engine
-    dirs = []
-    dirs.append(_emit(ctx, "PubSubGen", "PubSubGen_race1.cfg", "race1"))
-    # the membership check of a subscribe vs removal / eviction / re-admission (6 steps hold the minimal race)
-    dirs.append(_emit(ctx, "PubSubGen", "PubSubGen_evrace.cfg", "evrace",
-                      files=None if thorough else {"PubSubGen_evrace.cfg": _cfg_with(ctx, "PubSubGen_evrace.cfg", {"MaxSteps = 7": "MaxSteps = 6", "GenActs <- Rv_Acts": "GenActs <- Rvq_Acts"})}))
+        # the small configurations; per-action coverage (an action never taken = vacuous run) on two of them
+        jobs += [mc("PubSub_mc_npq.cfg", max(2, cores // 4), name="pubsub/PubSubMC:PubSub_mc_np.cfg (4 topics)",
+                    files={"PubSub_mc_npq.cfg": _cfg_with(ctx, "PubSub_mc_np.cfg", {"Topics <- Np_Topics": "Topics <- Npq_Topics"})}),
+                 mc("PubSub_mc_nqa.cfg", max(2, cores // 4)),
+                 mc("PubSub_mc_n2.cfg", 2, coverage=True), mc("PubSub_mc_c1.cfg", 1, coverage=True)]
+    jobs += [refuted("PubSub_mc_strict.cfg", "action_property", "PropReplayStrict", "strict 'replayed never handled' (finite dedup ring)"),
+             refuted("PubSub_mc_evrace.cfg", "invariant", "EvictedStayOut", "as-is handleSubscribe (single membership check before the lock)"),
+             ("match-table", match_table),
+             gen("PubSubGen_race1.cfg", "race1"), gen("PubSubGen_hold.cfg", "hold"),
+             gen("PubSubGen_evrace.cfg", "evrace", subst=None if thorough else {"MaxSteps = 8": "MaxSteps = 7", "GenActs <- Rv_Acts": "GenActs <- Rvq_Acts"},
+                 sample=4000 if thorough else None),
+             gen("PubSubGen_resid.cfg", "resid", subst=None if thorough else {"MaxSteps = 5": "MaxSteps = 4"}),
+             gen("PubSubGen_node.cfg", "node", simulate=1500 if thorough else 40, depth=1500),
+             gen("PubSubGen_client.cfg", "client", simulate=1500 if thorough else 60, depth=600)]
     if thorough:
-        race2 = _emit(ctx, "PubSubGen", "PubSubGen_race.cfg", "race2")
-        dirs.append(_sample_dir(ctx, race2, 4000, "race2-sample"))
-    dirs.append(_emit(ctx, "PubSubGen", "PubSubGen_resid.cfg", "resid",
-                      files=None if thorough else {"PubSubGen_resid.cfg": _cfg_with(ctx, "PubSubGen_resid.cfg", {"MaxSteps = 5": "MaxSteps = 4"})}))
-    dirs.append(_emit(ctx, "PubSubGen", "PubSubGen_node.cfg", "node", simulate=1500 if thorough else 50, depth=1500))
-    dirs.append(_emit(ctx, "PubSubGen", "PubSubGen_client.cfg", "client", simulate=1500 if thorough else 80, depth=600))
-    _inpkg(ctx, "TestVerifReplay$", env={"VERIF_BEHAVIOURS": ":".join(dirs)}, timeout=2400)
-    _inpkg(ctx, "TestVerifWiring$")
+        jobs.append(gen("PubSubGen_race.cfg", "race2", sample=4000))
+    _parallel(jobs, threads=max(2, cores - 2))
+    for res in counted:
+        ctx.cov["states"] += res.distinct
+        ctx.cov["transitions"] += res.generated
 
-    # ------------------------------------------------------------------ 4. code -> spec: recorded runs validated by TLC
-    _record(ctx, thorough)
+    # ------------------------------------------------------------------ phase B: the real engine (go test jobs in parallel)
+    beh = ":".join(dirs[k] for k in sorted(dirs))
+    recorded = {}
+    _parallel([
+        ("match", lambda: _inpkg(_sub(ctx, "go-match"), "TestVerifMatch$", env={"VERIF_MATCH_TABLE": table["path"]})),
+        ("validate", lambda: _sub(ctx, "go-validate").go_test("./pubsub", run="TestValidate$", env={"VERIF_MATCH_TABLE": table["path"]})),
+        ("replay", lambda: _inpkg(_sub(ctx, "go-replay"), "TestVerifReplay$", env={"VERIF_BEHAVIOURS": beh}, timeout=3000)),
+        ("wiring", lambda: _inpkg(_sub(ctx, "go-wiring"), "TestVerifWiring$")),
+        ("record", lambda: recorded.update(_record_run(_sub(ctx, "go-record"), thorough))),
+    ], threads=5)
+
+    # ------------------------------------------------------------------ phase C: recorded runs validated by TLC
+    _record_validate(ctx, thorough, recorded)
 
     ctx.assume("the clock does not advance inside one behaviour: every frame has a fixed freshness class (fresh / past the skew window / "
                "ahead of it / no timestamp) relative to the receiver")
     ctx.assume("relay partners (responsible node peers) are not members of the spaces they relay; membership answers come from a harness-owned checker")
     ctx.assume("the two critical sections of an unsubscribe are interleaved with other operations only in the model (no hook in the engine); "
-               "subscribe and stream close are interleaved on the real engine through harness gates")
+               "the sections of a subscribe and of a stream close are interleaved on the real engine through harness gates")
     ctx.assume("payload encryption (Deps.Crypto) is not configured: plaintext payloads")
 
 
@@ -223,15 +279,25 @@ def _match_table(ctx):
     return os.path.join(d, files[0])
 
 
-def _record(ctx, thorough, seed=None):
-    prefix = os.path.join(ctx.scratch, "pubsub-trace-%d" % len(ctx.cov["harness_runs"]))
+def _record_run(ctx, thorough, seed=None):
+    prefix = os.path.join(ctx.scratch, "pubsub-trace")
     env = {"VERIF_TRACE_OUT": prefix, "VERIF_RUNS": 150 if thorough else 15, "VERIF_RUN_STEPS": 80 if thorough else 60}
     if seed is not None:
         env["VERIF_SEED"] = seed
     rep = _inpkg(ctx, "TestVerifRecord$", env=env)
-    for what in ("node", "client"):
+    return {"prefix": prefix, "rep": rep}
+
+
+def _record(ctx, thorough, seed=None):
+    _record_validate(ctx, thorough and seed is None, _record_run(ctx, thorough, seed))
+
+
+def _record_validate(ctx, selftest, recorded):
+    prefix, rep = recorded["prefix"], recorded["rep"]
+
+    def one(what):
         trace = "%s-%s.ndjson" % (prefix, what)
-        verdict, tv = validate_trace(ctx, trace, what)
+        verdict, tv = validate_trace(_sub(ctx, "tv-" + what), trace, what)
         if verdict == "violated":
             # an invariant / step property of the design fails on a state or step recorded from the real engine
             ctx.violation("recorded-%s-run-violates:%s" % (what, tv.error_name),
@@ -246,7 +312,8 @@ def _record(ctx, thorough, seed=None):
                 raise _broken("DRIFT: recorded %s-role run is not a behaviour of PubSub.tla at event %d (no property predicate failed): %s" % (
                     what, line, lines[line - 1][:1500] if 0 < line <= len(lines) else "?"))
             ctx.notes.append("recorded %s run left the spec at event %d (after a reported violation)" % (what, line))
-    if thorough and seed is None:
+
+    def selftest_job():
         # binding self-test: a corrupted recording must be rejected
         trace = "%s-node.ndjson" % prefix
         lines = open(trace).read().splitlines()
@@ -261,7 +328,12 @@ def _record(ctx, thorough, seed=None):
         lines[idx] = json.dumps(x)
         bad = prefix + "-corrupted.ndjson"
         open(bad, "w").write("\n".join(lines) + "\n")
-        verdict, _ = validate_trace(ctx, bad, "self-test (one pool tag dropped from a recorded state)", expect_reject=True)
+        verdict, _ = validate_trace(_sub(ctx, "tv-selftest"), bad, "self-test (one pool tag dropped from a recorded state)", expect_reject=True)
         if verdict == "ok":
             raise _broken("binding self-test failed: a corrupted recording was accepted")
         ctx.notes.append("binding self-test: recording with one pool tag removed from the state after event %d -> %s" % (idx + 1, verdict))
+
+    jobs = [("tv-node", lambda: one("node")), ("tv-client", lambda: one("client"))]
+    if selftest:
+        jobs.append(("tv-selftest", selftest_job))
+    _parallel(jobs, threads=3)
